@@ -10,7 +10,7 @@ Abs(x) == [st |-> x.st, mf |-> x.mf, pf |-> x.pf, cur |-> x.cur, handled |-> x.h
            ob |-> [i \in DOMAIN x.ob |-> x.ob[i].t], hh |-> x.hh # 0, src |-> x.src, m3 |-> x.m3]
 View == <<gs, Abs(s)>>
 Init == hist = <<>> /\ gs = E!GInit /\ s = I!InitS
-Next == E!GNext /\ s' = [I!Step(s, Len(hist'), hist'[Len(hist')]) EXCEPT !.w = <<>>]
+Next == E!GNext /\ s' = [I!Step(s, Len(hist'), hist'[Len(hist')]) EXCEPT !.w = <<>>, !.sy = <<>>]
 Spec == Init /\ [][Next]_vars
 Edge == PrintT(<<"EDGE", ToJson([from |-> View, to |-> View', line |-> hist'[Len(hist')]])>>)
 =============================================================================
